@@ -252,3 +252,33 @@ def syncml_doc(dump, rng, inner_docs):
     body += payload + b'\x01' + b'\x01' + b'\x01' + b'\x01' + b'\x01'
     pub = lang['pub']['wbxml']
     return bytes([2]) + mb(pub) + mb(106) + mb(0) + body
+
+
+def literal_syncml_shape(dump, rng):
+    """A document of a NON-SyncML language that uses the element names the SyncML payload machinery looks for
+    (Add / Replace / Item / Meta / Type / Data) as literal tags: the tree builder decides by name alone, so vObject
+    CDATA sections and embedded-document parsing happen here too; elements follow and sit beside the payload."""
+    lang = rng.choice([l for l in dump['langs'] if l['id'] not in (2001, 2101, 2201) and l['pub'] and l['pub']['wbxml'] not in (None, 1)])
+    strs, offs = [], {}
+
+    def lit(name, content=True, attrs=False):
+        if name not in offs:
+            offs[name] = sum(len(x) + 1 for x in strs); strs.append(name)
+        return bytes([0x04 | (0x40 if content else 0)]) + mb(offs[name])
+
+    def s(b):
+        return b'\x03' + b + b'\x00'
+    mime = rng.choice([b'text/x-vcard', b'text/x-vcalendar', b'text/clear', b'text/plain', b'application/vnd.syncml-devinf+wbxml'])
+    cmd = rng.choice([b'Add', b'Replace', b'Results'])
+    body = lit(cmd) + lit(b'Item')
+    if rng.random() < 0.7:
+        body += lit(b'Meta') + lit(b'Type') + s(mime) + b'\x01\x01'
+    body += lit(b'Data') + s(rng.choice([b'hello', b'BEGIN:VCARD', b'a]]>b', b'\n']))
+    if rng.random() < 0.5:
+        body += lit(b'Next', content=False) + s(b'more')
+    body += b'\x01'                                  # </Data>
+    if rng.random() < 0.7:
+        body += lit(b'After', content=False)
+    body += b'\x01\x01'                              # </Item></cmd>
+    tbl = b''.join(x + b'\x00' for x in strs)
+    return lang['id'], bytes([3]) + mb(lang['pub']['wbxml']) + mb(106) + mb(len(tbl)) + tbl + body
